@@ -192,6 +192,11 @@ func c02Atoms() []c02Atom {
 	out = append(out, c02Atom{gen.Bin("=", gen.Call("upper", K()), gen.Str("AB")), "opaque", false})
 	out = append(out, c02Atom{gen.Bin("!=", K(), gen.Str("b")), "opaque", false})
 	out = append(out, c02Atom{gen.Bin("~=", K(), gen.Str("^a")), "opaque", false})
+	// anchored patterns: the literal after the anchor is not a prefix of every match when a
+	// quantifier allows zero repetitions of its last character or an alternation follows
+	for _, pat := range []string{"^ab*$", "^ab?", "^a|^c", "^(ab|c)", "^ab{0,1}c", "^b|c$", "^ab.*", "^a*b"} {
+		out = append(out, c02Atom{gen.Bin("~=", K(), gen.Str(pat)), "opaque", false})
+	}
 	out = append(out, c02Atom{gen.Not(gen.Bin("=", K(), gen.Str("a"))), "opaque", false})
 	out = append(out, c02Atom{gen.Not(gen.Bin(">", K(), gen.Str("b"))), "opaque", false})
 	return out
